@@ -470,6 +470,41 @@ def sampler_slots(mod, session):
     return s
 
 
+def signed_targets(mod, in_project=True):
+    """(label, setter(y)) for every signed scalar of `mod`: common fields, controllers whose plain
+    range reaches below zero, Sampler envelope point y values and sample tuning.  Used by the `neg`
+    op, which writes small negative numbers there: -1 and -2 are the one pair of in-domain ints
+    whose CPython hashes collide, i.e. what a hash-stamped "unchanged since load" shortcut confuses."""
+    t = []
+    for f in ("mod_finetune", "mod_relative_note", "midi_out_bank", "midi_out_program") + (("x", "y") if in_project else ()):
+        t.append((f, (lambda f: lambda y: setattr(mod, f, y))(f)))
+    for n, c in mod.controllers.items():
+        if not c.attached(mod):
+            continue
+        vt = c.instance_value_type(mod)
+        if type(vt) is Range and vt.min <= -2:
+            t.append(("ctl." + n, (lambda n: lambda y: setattr(mod, n, y))(n)))
+    if type(mod).__name__ == "Sampler":
+        for ei, e in enumerate(_envelopes(mod)):
+            if e.range[0] <= -2:
+                for j in range(len(e.points)):
+                    t.append(("env%d.pt%d" % (ei, j), (lambda e, j: lambda y: e.points.__setitem__(j, (e.points[j][0], y)))(e, j)))
+        for si, smp in enumerate(mod.samples):
+            if smp is not None:
+                t.append(("smp%d.finetune" % si, (lambda smp: lambda y: setattr(smp, "finetune", y))(smp)))
+                t.append(("smp%d.relative_note" % si, (lambda smp: lambda y: setattr(smp, "relative_note", y))(smp)))
+    return t
+
+
+def apply_neg(mod, op, in_project=True):
+    t = signed_targets(mod, in_project)
+    if not t:
+        return "skip"
+    label, setter = t[op.get("a", 0) % len(t)]
+    setter(op.get("y", -1))
+    return "neg:%s.%s=%d" % (type(mod).__name__, label, op.get("y", -1))
+
+
 def module_slots(mod, session=None, in_project=True, layout=None):
     """layout 1 = the original flat list (kept so that stored replay files keep selecting
     the slots they were recorded with); layout 2 repeats the type-specific payload slots
@@ -818,6 +853,11 @@ class Session:
                 else:
                     p.connect(hub, d)
             return "hubscn:%d" % n
+        if k == "neg":
+            ms = self.mods()
+            pref = [m for m in ms if type(m).__name__ == "Sampler"] if op.get("smp") else []
+            pool = pref or ms
+            return apply_neg(pool[op["m"] % len(pool)], op)
         if k == "set":
             ms = self.mods()
             m = ms[op["m"] % len(ms)]
